@@ -71,7 +71,7 @@ def run():
             ck.violation('%s: A=%r B=%r html_tokens=%s' % (v, a, b, html),
                          {'A': a, 'B': b, 'html_tokens': html, 'clause': v})
     ck.extra['pairs_tried'] = tried
-    ck.extra['binding_selftest'] = selftest(ck, recs[:50])
+    ck.extra['binding_selftest'] = selftest(ck, [r for r, v in zip(recs, verdicts) if v == 'ok'][:50])      # (corrupting a record that already violates the law could repair it)
     ck.assumptions = ["A's last block and the absence of definitions are decided from the real parse of A and B alone, as the property phrases them"]
     return ck.finish()
 
